@@ -507,6 +507,8 @@ impl TableBootstrapInner {
             table
                 .closest_nodes(target_id)
                 .filter(|n| n.status() == NodeStatus::Questionable)
+                // A node we have just asked may not have had the time to answer yet.
+                .filter(|n| !n.recently_requested_from())
                 .take(PINGS_PER_BUCKET)
                 .map(|node| *node.handle())
                 .collect()
@@ -539,6 +541,7 @@ impl TableBootstrapInner {
                 .chain(percent_50_bucket)
                 .chain(percent_100_bucket)
                 .filter(|n| n.status() == NodeStatus::Questionable)
+                .filter(|n| !n.recently_requested_from())
                 .take(PINGS_PER_BUCKET)
                 .map(|node| *node.handle())
                 .collect()
